@@ -250,7 +250,7 @@ def next (X : Ctx) : Nat → DFSt → VM (Step × DFSt)
       let p ← callbackCaught X
       if p then pure (.predPanicked, { f with panicked := true }) else do
       let r := f.pred f.calls e
-      let f := { f with calls := f.calls + 1 }
+      let f := { f with calls := f.calls + 1, panicked := false }
       if r then pure (.item e, { f with pos := f.pos + 1 })
       else do
         if f.pos > f.newLen then cp data f.pos f.newLen 1 else pure ()
